@@ -440,3 +440,20 @@ func genIfaceCaller(c *Chooser, i int) string {
 	fmt.Fprintf(&b, "  after%d:\n    needs: [call%d]\n    runs-on: ubuntu-latest\n    steps:\n      - run: echo ${{ needs.call%d.outputs.result }} ${{ needs.call%d.outputs.nope }}\n", i, i, i, i)
 	return b.String()
 }
+
+// ApplyLogLevel draws how much the linter logs (nothing, -verbose, -debug): the log goes to the
+// LogWriter / stderr, which no oracle compares, so results must not depend on it.
+func ApplyLogLevel(c *Chooser, w *World) {
+	switch c.Int("world.loglevel", 8) {
+	case 1:
+		w.Opts.Verbose = true
+		if w.API == APIMain {
+			w.Args = append([]string{"-verbose"}, w.Args...)
+		}
+	case 2:
+		w.Opts.Debug = true
+		if w.API == APIMain {
+			w.Args = append([]string{"-debug"}, w.Args...)
+		}
+	}
+}
